@@ -114,6 +114,33 @@ def run(ctx):
                                "%s%s with %d keys, %s: allocation #%d of %d failing: %s" % (job["family"], job["kind"], len(job["keys"]), job["op"][0], n, r["nalloc"], bad),
                                {"job": job, "n": n})
     ninj = ninj[0]
+    # ---- allocation counts of n inserts into an empty Bucket / Set against Model/Alloc.v
+    from harness import caseutil
+    from harness.families import fam
+    terms = []
+    for fn in ("II", "OO", "LF", "fs"):
+        f = fam(fn)
+        cmod = __import__("BTrees._%sBTree" % fn, fromlist=["x"])
+        km, vm = f.keymap("int" if f.kk == "O" else None), f.valmap()
+        for noval in (False, True):
+            for n in (0, 1, 15, 16, 17, 32, 33, 64, 65, 129, 300):
+                b = f.cls("Set" if noval else "Bucket", "C")()
+                cmod._verif_fail_alloc(0)
+                for i in range(n):
+                    if noval:
+                        b.add(km.k(i))
+                    else:
+                        b[km.k(i)] = vm.v(i % 4)
+                got = cmod._verif_fail_alloc(0)
+                terms.append("AC %s %d %d" % ("true" if noval else "false", n, got))
+                ctx.count(("count", fn, noval, n))
+    hdr = "From Coq Require Import List.\nFrom BT Require Import Model.CaseUtil Model.Alloc.\nImport ListNotations.\n"
+    total, badi, errs = caseutil.eval_cases("c17", hdr, "acase_ok", terms, shard=200, ctype="wacase")
+    for e in errs:
+        ctx.corr_mismatch("c17 case file", e)
+    for i in badi[:5]:
+        ctx.corr_mismatch("Alloc model vs implementation (number of allocations)", {"case": terms[i]})
+    ctx.cov["allocation_count_cases"] = total
     ctx.cov["allocations_failed_by_operation"] = nallocs
     ctx.cov["injected_failures"] = ninj
     ctx.traces = ctx.evaluations
